@@ -1718,7 +1718,7 @@ class Item:
             if any(lo_ < cpos < lc_ for (_, _, lo_, lc_) in inner):
                 continue
             self.rewrite(cpos, cpos + len("continue"), "{ %s = %s + 1; continue }" % (iv, iv), "R3-for-%s" % what)
-        self.rewrite(bclose, bclose, "  %s = %s + 1;\n    " % (iv, iv), "R3-for-%s" % what)
+        self.rewrite(bclose, bclose, "/*@tail*/  %s = %s + 1;\n    " % (iv, iv), "R3-for-%s" % what)
 
     def r3_for_values(self, fn, k):
         self._r3_map_iter(fn, k, "values")
